@@ -47,6 +47,14 @@ def run(rep, ctx):
     rep.run_rule("C01.R2", "every AddUnit row: frombase o tobase == x == tobase o frombase in Q(x); to-base map affine, total, slope > 0", r2_rows, ctx, cm)
     rep.run_rule("C01.R3", "AddUnitBase registers the same identity function for both directions", r3_base, ctx, cm)
     rep.run_rule("C01.R4", "conversion routes: frombase(target)(tobase(source)(value)) with correct roles, guarded by the same-unit shortcut", r4_routes, ctx)
+    from . import c15
+    from ..report import borrow
+    rep.rule("C01.R6", "conversion routes keep no state of their own: no cache of resolved conversions outside the known memo tables (shared with C15.R4)")
+    try:
+        borrow(rep, c15.r4_no_unlisted_memo, ctx, "C15.R4", "C01.R6", keep=lambda o: o.status == "violated" and any(r_ in o.key for r_ in ("Convert", "GetInfo", "ConvertScalarValue", "GetAbstractValue")))
+        rep.ok("C01.R6", "conversion-routes:stateless", "no conversion route writes database or quantity state outside the known memo tables")
+    except AnalysisError as e:
+        rep.error("C01.R6", str(e))
     rep.run_rule("C01.R5", "UnitInfo / AddUnit keep to-base and from-base in their own slots", r5_wiring, ctx)
     rep.not_decided += [
         "float rounding of affine (offset) conversions next to -a/b (cancellation cannot be bounded from syntax)",
